@@ -59,7 +59,7 @@ theorem top_enter_enabled (P : Program) (F : Flags) (c : Config) (k t : Nat) (hk
   · simp [step, enterAct, fresh_id c, enterCheck, hge, hfree, h1, h2, h3]
 
 /-- **a configuration that accepts no label is final** -/
-theorem quiescent_final (P : Program) (F : Flags) (rank : Nat → Nat) (hr : RankOk P rank) (n : Nat)
+theorem quiescent_final (P : Program) (F : Flags) (rank : Nat → Nat) (hr : SemiRankOk P rank) (n : Nat)
     (tr : List Label) (c : Config) (hcap : F.cap ≠ some 0) (hk : KeysByTask tr)
     (h : replay P F (init n) tr = some c) (hq : ∀ l, step P F c l = none) :
     (∀ a x, c.act? a = some x → x.phase = .done) ∧ c.tokens = 0 ∧
